@@ -156,10 +156,12 @@ Theorem C14_oob_fails_both :
 Proof. exact oob_fails_both. Qed.
 
 (** ---- sequences of pairing procedures through the SAME two stacks ----
-    [run_seq si sr l]: each step re-pairs the same connection ([SameConn]) or pairs on a new
-    connection handle of the same stacks ([NewConn]); what survives [reset_state()] (SMP state code,
-    passkey counter, registered link key, the LinkLayer's crypto manager, encrypted flag) is carried
-    over, for lists of ANY length (induction over the list, from any startable states).  Every
+    [run_seq si sr l]: each step re-pairs the same connection ([SameConn]), pairs on a new
+    connection handle of the same stacks ([NewConn]) or on the same handle after a disconnection
+    ([Reconnect]); on the same connection what survives [reset_state()] (SMP state code, passkey
+    counter, registered link key, the crypto manager of that handle, encrypted flag) is carried
+    over, a new or re-opened handle starts with none of it; for lists of ANY length (induction over
+    the list, from any startable states).  Every
     procedure of the sequence ends in the same outcome on both sides, and on success each stack got
     one set_encryption whose session key is e(key, SKD) with key = the STK / LTK of THAT procedure:
     nothing of an earlier procedure leaks into a later session key. *)
